@@ -2,7 +2,7 @@
 From Coq Require Import ZArith NArith List.
 From Coq.Strings Require Import Byte.
 From SV Require Import Base.Bytes Base.Py Msg.Types Msg.Encode Msg.Decode Msg.RoundTrip
-  Sess.Model Sess.Drain Sess.Chunk Sess.Proto Sess.Joint.
+  Sess.Model Sess.Drain Sess.Chunk Sess.Proto Sess.Joint Sess.Bytes.
 Import ListNotations.
 Local Open Scope Z_scope.
 
@@ -88,9 +88,62 @@ Proof.
   exists j5. split; [exact R5|]. vm_compute. repeat split; reflexivity.
 Qed.
 
+(* ======== the composed statement: sessions joined by BYTE pipes ========
+   [breach] / [breachH] (Sess/Bytes.v): any interleaving of accepted client calls, accepted matching server calls
+   (messages well formed for the decoder's recursion budget d), data_to_send of any amount on either side, and the
+   delivery of any non-empty prefix of the octets on a wire to receive.  [breachH] also records what was sent and
+   what receive handed back.  The byte-level system simulates the message-level one. *)
+Theorem C11_bytes_simulate_messages :
+  forall d b, breach d b -> exists j, jreach d j /\ Rel d b j.
+Proof. exact byte_system_simulates. Qed.
+
+(* no protocol error other than the designed terminations, whatever the chunking: an open endpoint that is handed the
+   next octets on its wire returns messages, or raises the ProtocolError that ends the session because the peer's
+   unbind (at the client also: the notice of disconnection) was among them *)
+Theorem C11_bytes_no_spurious_error :
+  (forall d b chunk rest sv' o, breach d b -> wcs b = chunk ++ rest -> s_state (bsv b) <> CLOSED ->
+     step d (bsv b) (Receive chunk) = (sv', o) -> (exists ms, o = ORetMsgs ms) \/ o = OProtoErr PNone) /\
+  (forall d b chunk rest cl' o, breach d b -> wsc b = chunk ++ rest -> s_state (bcl b) <> CLOSED ->
+     step d (bcl b) (Receive chunk) = (cl', o) -> (exists ms, o = ORetMsgs ms) \/ o = OProtoErr PNone).
+Proof. exact (conj byte_delivery_never_fails_cs byte_delivery_never_fails_sc). Qed.
+
+(* every message handed to an application is, in order and each once, a message the peer sent, as an equal value ... *)
+Theorem C11_bytes_messages_in_order :
+  forall d b h, breachH d b h ->
+  (exists t, map norm_msg (sent_cs h) = got_cs h ++ t) /\ (exists t, map norm_msg (sent_sc h) = got_sc h ++ t).
+Proof. exact byte_messages_in_order. Qed.
+
+(* ... and once all octets have reached an open receiver it has been handed every message sent *)
+Theorem C11_bytes_all_received :
+  (forall d b h, breachH d b h -> s_state (bsv b) <> CLOSED -> s_out (bcl b) = [] -> wcs b = [] -> s_in (bsv b) = [] ->
+     got_cs h = map norm_msg (sent_cs h)) /\
+  (forall d b h, breachH d b h -> s_state (bcl b) <> CLOSED -> s_out (bsv b) = [] -> wsc b = [] -> s_in (bcl b) = [] ->
+     got_sc h = map norm_msg (sent_sc h)).
+Proof. exact (conj byte_all_received_cs byte_all_received_sc). Qed.
+
+(* whenever all octets have been delivered both sides agree on the state and on what is in progress *)
+Theorem C11_bytes_agreement :
+  forall d b, breach d b ->
+  s_out (bcl b) = [] -> s_out (bsv b) = [] -> wcs b = [] -> wsc b = [] -> s_in (bcl b) = [] -> s_in (bsv b) = [] ->
+  same_state (s_state (bcl b)) (s_state (bsv b)) /\
+  (s_state (bcl b) <> CLOSED ->
+   (forall i, In i (s_outstanding (bcl b)) <-> In i (s_outstanding (bsv b))) /\
+   (forall i, In i (s_searches (bcl b)) <-> In i (s_searches (bsv b)))).
+Proof. exact byte_agreement_when_all_delivered. Qed.
+
+(* non-vacuity of the byte-level system: a request cut into two deliveries, the first leaving a partial message buffered *)
+Example C11_bytes_example :
+  breach 10 ex_b4 /\ s_outstanding (bsv ex_b4) = [1] /\ s_in (bsv ex_b3) <> [] /\ wcs ex_b3 <> [].
+Proof. exact byte_system_example. Qed.
+
 Print Assumptions C11_server_accepts_everything_sent.
 Print Assumptions C11_client_accepts_everything_sent.
 Print Assumptions C11_agreement_when_all_delivered.
 Print Assumptions C11_octets_carry_the_messages.
 Print Assumptions C11_delivered_exactly_once_in_order.
 Print Assumptions C11_refinement.
+Print Assumptions C11_bytes_simulate_messages.
+Print Assumptions C11_bytes_no_spurious_error.
+Print Assumptions C11_bytes_messages_in_order.
+Print Assumptions C11_bytes_all_received.
+Print Assumptions C11_bytes_agreement.
